@@ -352,7 +352,50 @@ Inductive sbody : bytes -> Prop :=
                    sbody (x5c :: x75 :: a :: b :: c :: d :: r)
 | SB_ascii c r : (bn c <? 128) = true -> (bn c <? 32) = false -> Byte.eqb c x22 = false -> Byte.eqb c x5c = false ->
                  sbody r -> sbody (c :: r)
-| SB_multi c r n : (bn c <? 128) = false -> utf8_len (c :: r) = S n -> sbody (skipn (S n) (c :: r)) -> sbody (c :: r).
+| SB_high c r : (bn c <? 128) = false -> sbody r -> sbody (c :: r).
+
+(* (any byte >= 0x80 is accepted inside a string by the scanner, whether or not it is part of a
+   well-formed UTF-8 sequence: sbody is exactly what Text.scan_string reads, see scan_string_sbody) *)
+Lemma sbody_high_inv c r : (bn c <? 128) = false -> sbody (c :: r) -> sbody r.
+Proof.
+  intros H S. inversion S as [|e r' He Sr|a b c' d r' Hh Sr|c0 r' H1 H2 H3 H4 Sr|c0 r' H1 Sr]; subst; auto;
+    try (vm_compute in H; discriminate); congruence.
+Qed.
+
+Lemma cont_high c : cont c = true -> (bn c <? 128) = false.
+Proof. unfold cont, in_range. intro H. apply andb_prop in H as [A _]. apply N.leb_le in A. apply N.ltb_ge. lia. Qed.
+
+Lemma in_range_cont lo hi c : (128 <= lo)%N -> (hi <= 191)%N -> in_range lo hi c = true -> cont c = true.
+Proof.
+  unfold cont, in_range. intros L Hh H. apply andb_prop in H as [A B]. apply N.leb_le in A, B.
+  apply andb_true_intro. split; apply N.leb_le; lia.
+Qed.
+
+(* the bytes of a well-formed multi-byte sequence are all >= 0x80: the rest after it is a body *)
+Lemma sbody_skip_multi c r k : (bn c <? 128) = false -> utf8_len (c :: r) = S k -> sbody (c :: r) ->
+  sbody (skipn (S k) (c :: r)).
+Proof.
+  intros H E S. apply sbody_high_inv in S; [|exact H]. unfold utf8_len in E. rewrite H in E.
+  destruct (bn c <? 194) eqn:H1; [discriminate|].
+  destruct (bn c <? 224) eqn:H2.
+  { destruct r as [|c1 r]; [discriminate|]. destruct (cont c1) eqn:C; [|discriminate].
+    inversion E; subst. cbn [skipn]. apply (sbody_high_inv c1); [apply cont_high; exact C | exact S]. }
+  destruct (bn c <? 240) eqn:H3.
+  { destruct r as [|c1 [|c2 r]]; try discriminate. destruct (_ && _) eqn:C; [|discriminate].
+    inversion E; subst. apply andb_prop in C as [C1 C2]. cbn [skipn].
+    assert (K1 : cont c1 = true).
+    { apply (in_range_cont (if bn c =? 224 then 160 else 128) (if bn c =? 237 then 159 else 191));
+        [destruct (bn c =? 224); lia | destruct (bn c =? 237); lia | exact C1]. }
+    apply (sbody_high_inv c2); [apply cont_high; exact C2|]. apply (sbody_high_inv c1); [apply cont_high; exact K1 | exact S]. }
+  destruct (bn c <? 245) eqn:H4; [|discriminate].
+  destruct r as [|c1 [|c2 [|c3 r]]]; try discriminate. destruct (_ && _) eqn:C; [|discriminate].
+  inversion E; subst. apply andb_prop in C as [C12 C3]. apply andb_prop in C12 as [C1 C2]. cbn [skipn].
+  assert (K1 : cont c1 = true).
+  { apply (in_range_cont (if bn c =? 240 then 144 else 128) (if bn c =? 244 then 143 else 191));
+      [destruct (bn c =? 240); lia | destruct (bn c =? 244); lia | exact C1]. }
+  apply (sbody_high_inv c3); [apply cont_high; exact C3|]. apply (sbody_high_inv c2); [apply cont_high; exact C2|].
+  apply (sbody_high_inv c1); [apply cont_high; exact K1 | exact S].
+Qed.
 
 Lemma is_hex_not_special a : is_hex a = true -> he_special a = false.
 Proof. destruct a; try reflexivity; discriminate. Qed.
@@ -414,13 +457,22 @@ Proof. intro H. unfold getu4. destruct c; try reflexivity; discriminate. Qed.
 
 Definition low_surrogate (v : N) : bool := (56320 <=? v) && (v <? 57344).
 
+Lemma is_ls_valid c r x : is_ls (c :: r) = Some x -> utf8_len (c :: r) = 3%nat.
+Proof.
+  unfold is_ls. destruct c; try discriminate. destruct r as [|c1 r1]; try discriminate. destruct c1; try discriminate.
+  destruct r1 as [|c2 r2]; try discriminate. destruct c2; try discriminate; reflexivity.
+Qed.
+
+Lemma is_ls_invalid c r : utf8_len (c :: r) = 0%nat -> is_ls (c :: r) = None.
+Proof. intro E. destruct (is_ls (c :: r)) eqn:L; [|reflexivity]. apply is_ls_valid in L. congruence. Qed.
+
 (* what a surrogate escape sees when it looks ahead, before and after escaping *)
 Lemma lookahead_he r : sbody r ->
   (exists a b c d r2, r = x5c :: x75 :: a :: b :: c :: d :: r2 /\
      is_hex a && is_hex b && is_hex c && is_hex d = true /\ sbody r2) \/
   (getu4 r = None /\ match getu4 (html_escape r) with Some v => low_surrogate v = false | None => True end).
 Proof.
-  intro S. inversion S as [|e r' He Sr|a b c d r' Hh Sr|c r' H1 H2 H3 H4 Sr|c r' n H1 E Sr]; subst.
+  intro S. inversion S as [|e r' He Sr|a b c d r' Hh Sr|c r' H1 H2 H3 H4 Sr|c r' H1 Sr]; subst.
   - right. split; reflexivity.
   - right. assert (Ne : he_special e = false) by (destruct e; try reflexivity; discriminate).
     rewrite (he_plain x5c) by reflexivity. rewrite (he_plain e) by exact Ne.
@@ -432,6 +484,8 @@ Proof.
     + rewrite he_plain by exact Sp. rewrite getu4_not_backslash by exact H4. exact I.
   - right. assert (NB : Byte.eqb c x5c = false) by (destruct c; try reflexivity; discriminate).
     split; [apply getu4_not_backslash; exact NB|].
+    destruct (utf8_len (c :: r')) as [|n] eqn:E.
+    { rewrite (he_lead c r' H1 (is_ls_invalid _ _ E)). rewrite getu4_not_backslash by exact NB. exact I. }
     destruct (is_ls (c :: r')) as [[d r2]|] eqn:L.
     + unfold is_ls in L. destruct c; try discriminate. destruct r' as [|c1 r1]; try discriminate.
       destruct c1; try discriminate. destruct r1 as [|c2 r2']; try discriminate.
@@ -447,11 +501,76 @@ Proof.
   rewrite F2, (encode_rune_ascii c H). reflexivity.
 Qed.
 
+(* the first byte of an escaped text is the first byte of the text, or a backslash *)
+Lemma he_head r : match r, html_escape r with
+                  | [], [] => True
+                  | c :: _, d :: _ => d = c \/ d = x5c
+                  | _, _ => False
+                  end.
+Proof.
+  destruct r as [|c r]; [exact I|]. destruct (he_special c) eqn:S.
+  - destruct c; try discriminate; try (right; reflexivity).
+    destruct r as [|c1 r1]; [left; reflexivity|]. destruct c1; try (left; reflexivity).
+    destruct r1 as [|c2 r2]; [left; reflexivity|]. destruct c2; try (left; reflexivity); right; reflexivity.
+  - rewrite he_plain by exact S. left. reflexivity.
+Qed.
+
+(* escaping does not turn an ill-formed sequence into a well-formed one: continuation bytes pass
+   through, every other byte is replaced by something that starts with a non-continuation byte *)
+Lemma he_first_noncont c1 r1 : cont c1 = false -> exists h t, html_escape (c1 :: r1) = h :: t /\ cont h = false.
+Proof.
+  intro C. pose proof (he_head (c1 :: r1)) as Hd. destruct (html_escape (c1 :: r1)) as [|h t] eqn:E; cbv iota beta in Hd; rewrite E in Hd; [contradiction|].
+  exists h, t. split; [reflexivity|]. destruct Hd as [-> | ->]; [exact C | reflexivity].
+Qed.
+
+Lemma in_range_noncont lo hi c : (128 <= lo)%N -> (hi <= 191)%N -> cont c = false -> in_range lo hi c = false.
+Proof.
+  intros A B C. destruct (in_range lo hi c) eqn:R; [|reflexivity]. rewrite (in_range_cont lo hi c A B R) in C. discriminate.
+Qed.
+
+Lemma utf8_len_he_invalid c r : (bn c <? 128) = false -> utf8_len (c :: r) = 0%nat -> utf8_len (c :: html_escape r) = 0%nat.
+Proof.
+  intros H E. unfold utf8_len in *. rewrite H in *.
+  destruct (bn c <? 194) eqn:H1; [reflexivity|].
+  destruct (bn c <? 224) eqn:H2.
+  { destruct r as [|c1 r1]; [reflexivity|]. destruct (cont c1) eqn:C; [discriminate|].
+    destruct (he_first_noncont c1 r1 C) as [h [t [-> Ch]]]. now rewrite Ch. }
+  destruct (bn c <? 240) eqn:H3.
+  { set (lo := if bn c =? 224 then 160 else 128) in *. set (hi := if bn c =? 237 then 159 else 191) in *.
+    assert (Lo : (128 <= lo)%N) by (subst lo; destruct (bn c =? 224); lia).
+    assert (Hi : (hi <= 191)%N) by (subst hi; destruct (bn c =? 237); lia).
+    destruct r as [|c1 r1]; [reflexivity|].
+    destruct (cont c1) eqn:C1.
+    - rewrite (he_cont c1 r1 C1). destruct r1 as [|c2 r2]; [reflexivity|].
+      destruct (in_range lo hi c1) eqn:R1.
+      + cbn [andb] in E. destruct (cont c2) eqn:C2; [discriminate|].
+        destruct (he_first_noncont c2 r2 C2) as [h [t [-> Ch]]]. now rewrite Ch.
+      + destruct (html_escape (c2 :: r2)); reflexivity.
+    - destruct (he_first_noncont c1 r1 C1) as [h [t [-> Ch]]].
+      destruct t; [reflexivity|]. now rewrite (in_range_noncont lo hi h Lo Hi Ch). }
+  destruct (bn c <? 245) eqn:H4; [|reflexivity].
+  set (lo := if bn c =? 240 then 144 else 128) in *. set (hi := if bn c =? 244 then 143 else 191) in *.
+  assert (Lo : (128 <= lo)%N) by (subst lo; destruct (bn c =? 240); lia).
+  assert (Hi : (hi <= 191)%N) by (subst hi; destruct (bn c =? 244); lia).
+  destruct r as [|c1 r1]; [reflexivity|].
+  destruct (cont c1) eqn:C1.
+  - rewrite (he_cont c1 r1 C1). destruct r1 as [|c2 r2]; [reflexivity|].
+    destruct (cont c2) eqn:C2.
+    + rewrite (he_cont c2 r2 C2). destruct r2 as [|c3 r3]; [reflexivity|].
+      destruct (in_range lo hi c1) eqn:R1; [|destruct (html_escape (c3 :: r3)); reflexivity].
+      cbn [andb] in E. destruct (cont c3) eqn:C3; [discriminate|].
+      destruct (he_first_noncont c3 r3 C3) as [h [t [-> Ch]]]. rewrite Ch. now rewrite andb_false_r.
+    + destruct (he_first_noncont c2 r2 C2) as [h [t [-> Ch]]].
+      destruct t; [reflexivity|]. rewrite Ch. now rewrite andb_false_r.
+  - destruct (he_first_noncont c1 r1 C1) as [h [t [-> Ch]]].
+    destruct t as [|t1 [|t2 t]]; try reflexivity. now rewrite (in_range_noncont lo hi h Lo Hi Ch).
+Qed.
+
 Theorem unquote_html_escape : forall n b, (length b <= n)%nat -> sbody b -> unquote (html_escape b) = unquote b.
 Proof.
   induction n as [|n IH]; intros b L Sb.
   { destruct b; [reflexivity | simpl in L; lia]. }
-  inversion Sb as [|e r He Sr|a b0 c d r Hh Sr|c r H1 H2 H3 H4 Sr|c r k H1 E Sr]; subst.
+  inversion Sb as [|e r He Sr|a b0 c d r Hh Sr|c r H1 H2 H3 H4 Sr|c r H1 Sr0]; subst.
   - reflexivity.
   - (* simple escape *)
     assert (Ne : he_special e = false) by (destruct e; try reflexivity; discriminate).
@@ -497,7 +616,13 @@ Proof.
       rewrite F2, (encode_rune_ascii c H1). cbn [app]. rewrite unquote_plain by auto. f_equal.
       apply IH; auto. simpl in L. lia.
     + rewrite he_plain by exact Sp. rewrite !unquote_plain by auto. f_equal. apply IH; auto. simpl in L. lia.
-  - (* a multi-byte character *)
+  - (* a byte >= 0x80 *)
+    destruct (utf8_len (c :: r)) as [|k] eqn:E.
+    { (* not the start of a well-formed sequence: decoded as U+FFFD, before and after escaping *)
+      rewrite (he_lead c r H1 (is_ls_invalid _ _ E)).
+      rewrite (unquote_invalid c r H1 E), (unquote_invalid c (html_escape r) H1 (utf8_len_he_invalid c r H1 E)).
+      f_equal. apply IH; auto. simpl in L. lia. }
+    pose proof (sbody_skip_multi c r k H1 E Sb) as Sr.
     pose proof (utf8_len_le (c :: r)) as UL. rewrite E in UL.
     assert (IHs : unquote (html_escape (skipn (S k) (c :: r))) = unquote (skipn (S k) (c :: r))).
     { apply IH; auto. pose proof (skipn_length (S k) (c :: r)). simpl in *. lia. }
@@ -638,14 +763,14 @@ Qed.
 
 Lemma sbody_u_inv a b c d r2 : sbody (x5c :: x75 :: a :: b :: c :: d :: r2) -> sbody r2.
 Proof.
-  intro S. inversion S as [|e r He Sr|a' b' c' d' r Hh Sr|c0 r H1 H2 H3 H4 Sr|c0 r n H1 E Sr]; subst; auto; discriminate.
+  intro S. inversion S as [|e r He Sr|a' b' c' d' r Hh Sr|c0 r H1 H2 H3 H4 Sr|c0 r H1 Sr]; subst; auto; try discriminate.
 Qed.
 
 Theorem unquote_utf8 : forall n b, (length b <= n)%nat -> sbody b -> utf8 (unquote b).
 Proof.
   induction n as [|n IH]; intros b L Sb.
   { destruct b; [constructor | simpl in L; lia]. }
-  inversion Sb as [|e r He Sr|a b0 c d r Hh Sr|c r H1 H2 H3 H4 Sr|c r k H1 E Sr]; subst.
+  inversion Sb as [|e r He Sr|a b0 c d r Hh Sr|c r H1 H2 H3 H4 Sr|c r H1 Sr0]; subst.
   - constructor.
   - assert (Nu : match e with x75 => False | _ => True end) by (destruct e; try exact I; discriminate).
     rewrite unquote_esc by exact Nu. apply U_ascii.
@@ -666,7 +791,10 @@ Proof.
         -- eapply sbody_u_inv; eauto.
     + apply encode_rune_utf8; auto. lia.
   - rewrite unquote_plain by auto. apply U_ascii; auto. apply IH; auto. simpl in L. lia.
-  - rewrite (unquote_multi c r k H1 E).
+  - destruct (utf8_len (c :: r)) as [|k] eqn:E.
+    { rewrite (unquote_invalid c r H1 E). apply replacement_utf8. apply IH; auto. simpl in L. lia. }
+    pose proof (sbody_skip_multi c r k H1 E Sb) as Sr.
+    rewrite (unquote_multi c r k H1 E).
     assert (Hd : exists t, firstn (S k) (c :: r) = c :: t) by (cbn [firstn]; eauto).
     destruct Hd as [t Ht]. rewrite Ht. cbn [app].
     pose proof (utf8_len_firstn_length c r k E) as FL.
@@ -705,20 +833,6 @@ Lemma has_raw_app_plain p s : forallb (fun c => negb (he_special c)) p = true ->
 Proof.
   induction p as [|c p IH]; intro H; [reflexivity|]. cbn [forallb] in H. apply andb_prop in H as [H1 H2].
   cbn [app]. rewrite has_raw_cons_plain by (destruct (he_special c); auto; discriminate). auto.
-Qed.
-
-(* the first byte of an escaped text is the first byte of the text, or a backslash *)
-Lemma he_head r : match r, html_escape r with
-                  | [], [] => True
-                  | c :: _, d :: _ => d = c \/ d = x5c
-                  | _, _ => False
-                  end.
-Proof.
-  destruct r as [|c r]; [exact I|]. destruct (he_special c) eqn:S.
-  - destruct c; try discriminate; try (right; reflexivity).
-    destruct r as [|c1 r1]; [left; reflexivity|]. destruct c1; try (left; reflexivity).
-    destruct r1 as [|c2 r2]; [left; reflexivity|]. destruct c2; try (left; reflexivity); right; reflexivity.
-  - rewrite he_plain by exact S. left. reflexivity.
 Qed.
 
 Theorem html_escape_no_raw : forall n b, (length b <= n)%nat -> has_raw (html_escape b) = false.
